@@ -157,6 +157,11 @@ func makeRemoteSource(sourceType string, u *url.URL, subPath string) (RemoteSour
 	if normU, err := url.Parse(u.String()); err == nil {
 		*u = *normU
 	}
+	if strings.Contains(u.EscapedPath(), "//") {
+		// "//" separates a package from a sub-path, so a package whose own
+		// printed path contains it could never be written as an address.
+		return RemoteSource{}, fmt.Errorf("package URL path must not contain \"//\"")
+	}
 
 	return RemoteSource{
 		pkg: RemotePackage{
